@@ -45,7 +45,7 @@ var parseChain = map[string]bool{
 
 func init() {
 	register(&propertySpec{
-		ID: "C01", Fixtures: []string{"FMTCONST", "EXTCUT"}, NeedCG: true, Quick: cfgAMD, Thorough: cfgAll,
+		ID: "C01", Fixtures: []string{"FMTCONST", "EXTCUT", "GLOB"}, NeedCG: true, Quick: cfgAMD, Thorough: cfgAll,
 		Explanation: "Decides the structural conditions PAR2 repair rests on, for every path of the code: the only failure of reconstruction - a singular or under-determined system - is propagated as an error through every frame from the row reduction up to par2.Repair (ERRFLOW on the reconstruct chain); Repair returns nil only after every buffer it wrote matched the archive's 16k-hash and MD5, and a mismatch returns an error (WGUARD with error returns); writer and reader agree on the coder constructor, on its dimensions being the lengths of the very slices handed to it (the parity table is indexed by exponent), on slice cutting/padding and on the checksum functions (PAIR); every recovery block accepted as a parity shard has the slice size the coder's equal-length precondition needs (SHLEN); per-file damage flags are written to the record Repair reads, not to a copy (DEADST/LOCALCOPY); intact files are recognised with the full per-file predicate (SKIPOK); expected and found slice locations accumulate, so repeated slice contents do not consume recovery blocks (ACCUM); the coder workers partition the slice correctly for every goroutine count (RACE); Repair declares success only through Decoder.Repair (ENTRY-SEQ); the file writer replaces whole files (EFF write-impl). Round-3 additions: after a data file has been read, no return skips the slice search or the two file-level checks (MUSTPASS); elementary row operations cover the whole row of the matrix they touch, also of the wider augmented matrix (ROWCOVER); every surviving recovery block is a candidate row - a nil shard is skipped, it does not end the scan (FILTER). Later additions: format strings, extension cuts and index-path prefixes are literal (FMTCONST, EXTCUT, BASECUT); the checksum map returns exactly m[crc][md5(data)] (GETKEYS); no write follows a failed reconstruction and the not-enough error needs a missing slice (NOWRITE, NEEDSLICE); the file reader returns the OS error itself, which the missing-file test needs (ERRIDENT); no value is copied into a like-typed field of another name (FIELDCROSS); deep comparisons compare like with like (DEEPEQ).",
 		NotDecided:  []string{"that Repair succeeds whenever k blocks survive (matrix algebra, slice search at every offset)", "volume discovery beyond what C06 decides", "the values of the reconstructed bytes"},
 		Run: func(w *World, r *Report, tier string) {
@@ -55,6 +55,9 @@ func init() {
 			guard(r, "WGUARD", func() { ruleWGUARD(w, r, true) })
 			guard(r, "PAIR", func() { rulePAIRpar2(w, r, pairOpts{true, true, true}) })
 			guard(r, "SHLEN", func() { ruleSHLEN(w, r) })
+			guard(r, "VOLCONS", func() { ruleVOLCONS(w, r) })
+			guard(r, "GLOB", func() { ruleGLOB(w, r, globOpts{literal: true, complete: true}) })
+			guard(r, "GLOBCALL", func() { ruleGLOBCALL(w, r) })
 			guard(r, "SKIPOK", func() { ruleSKIPOK(w, r) })
 			guard(r, "DEADST", func() { ruleDEADST(w, r) })
 			guard(r, "ACCUM", func() { ruleACCUM(w, r) })
@@ -118,6 +121,7 @@ func init() {
 			guard(r, "DEADST", func() { ruleDEADST(w, r) })
 			guard(r, "ACCUM", func() { ruleACCUM(w, r) })
 			guard(r, "SCANALL", func() { ruleSCANALL(w, r) })
+			guard(r, "VOLCONS", func() { ruleVOLCONS(w, r) })
 			guard(r, "ENTRY-SEQ", func() { ruleENTRYSEQ(w, r, "par2") })
 		},
 	})
@@ -141,6 +145,7 @@ func init() {
 			guard(r, "NAMESYM", func() { ruleNAMESYM(w, r, "par1") })
 			guard(r, "SAVEDONLY", func() { ruleSAVEDONLY(w, r) })
 			guard(r, "PAR1VOL", func() { rulePAR1VOL(w, r) })
+			guard(r, "ALLINPUTS", func() { ruleALLINPUTS(w, r, "par1") })
 			guard(r, "ERRIDENT", func() { ruleERRIDENT(w, r) })
 			guard(r, "OPTKEEP", func() { ruleOPTKEEP(w, r) })
 			guard(r, "SIZESENT", func() { ruleSIZESENT(w, r) })
@@ -164,6 +169,7 @@ func init() {
 			guard(r, "GENORDER", func() { ruleGENORDER(w, r) })
 			guard(r, "VOLCOVER", func() { ruleVOLCOVER(w, r) })
 			guard(r, "VANDER", func() { ruleVANDER(w, r) })
+			guard(r, "ALLINPUTS", func() { ruleALLINPUTS(w, r, "par2") })
 			guard(r, "EXPKEY", func() { ruleEXPKEY(w, r) })
 			guard(r, "FIELDCROSS", func() { ruleFIELDCROSS(w, r) })
 			guard(r, "DETERM", func() { ruleDETERM(w, r) })
@@ -194,6 +200,7 @@ func init() {
 			guard(r, "WIRE", func() { ruleWIRE(w, r, "(*par2.Decoder).LoadParityData") })
 			guard(r, "PAIR", func() { rulePAIRpar2(w, r, pairOpts{decoder: true}) })
 			guard(r, "DEEPEQ", func() { ruleDEEPEQ(w, r, "par2") })
+			guard(r, "DECIDE", func() { ruleDECIDECounts(w, r, map[string]bool{"par2": true}) })
 			guard(r, "CONST", func() { constPacketLenBound(w, r) })
 			guard(r, "GLOBCALL", func() { ruleGLOBCALL(w, r) })
 			guard(r, "CONST", func() { r.rule("CONST", ruleCONSTText); constByteOrder(w, r, "par2") })
@@ -242,7 +249,14 @@ func init() {
 		NotDecided:  []string{"the products themselves over 2^32 operand pairs", "gf2.Poly64 multiplication and division as values"},
 		Run: func(w *World, r *Report, tier string) {
 			guard(r, "CONST", func() { ruleCONST(w, r, constOpts{field: true}) })
-			guard(r, "TABLEFILL", func() { ruleTABLEFILL(w, r, 1, "expTable", "logTable") })
+			guard(r, "TABLEFILL", func() {
+				// log/exp tables, and the multiplication tables of t.go that the table-driven products read
+				if w.GOARCH == "amd64" {
+					ruleTABLEFILL(w, r, 3, "expTable", "logTable", "mulTable", "mulTable64")
+				} else {
+					ruleTABLEFILL(w, r, 2, "expTable", "logTable", "mulTable")
+				}
+			})
 			guard(r, "INTONLY", func() { ruleINTONLY(w, r) })
 			guard(r, "ZEROEXP", func() { ruleZEROEXP(w, r) })
 			guard(r, "ZERODIV", func() { ruleZERODIV(w, r) })
@@ -255,7 +269,7 @@ func init() {
 	})
 
 	register(&propertySpec{
-		ID: "C09", NeedCG: true, Quick: cfgAMD32, Thorough: cfgAll,
+		ID: "C09", Fixtures: []string{"IDXLEN"}, NeedCG: true, Quick: cfgAMD32, Thorough: cfgAll,
 		Explanation: "Decides 'never read or write outside the given buffers, never modify the input' on all three dispatch paths from source: the twelve assembly TEXT symbols are abstractly interpreted over the assembler's own listing (partial-width operations on lengths, closed-form loop extents, stores only through out*, table operands inside their field, FP operands) and emit caller obligations (ASM); the four production call sites and the two unsafe casts establish them (KGUARD); the exported kernels write out at byte depth only and never in (OWN, amd64/386/arm64 paths); table indices of the portable loops are in range (RANGE); the SSSE3 tables are filled for every constant (TABLEFILL).",
 		NotDecided:  []string{"out[i] = c*in[i] as values", "behaviour for odd buffer lengths (the API documents even lengths)"},
 		Run: func(w *World, r *Report, tier string) {
@@ -263,6 +277,7 @@ func init() {
 			guard(r, "RANGE", func() {
 				ruleRANGE(w, r, []string{"gf2p16"}, 8, func(fn *ssa.Function) bool { return fn.Signature.Recv() == nil })
 			})
+			guard(r, "IDXLEN", func() { ruleIDXLEN(w, r, "gf2p16") })
 			guard(r, "TABLEFILL", func() {
 				if w.GOARCH == "amd64" {
 					ruleTABLEFILL(w, r, 2, "mulTable", "mulTable64")
@@ -467,6 +482,7 @@ func init() {
 				ruleWIRE(w, r)
 			})
 			guard(r, "SHLEN", func() { ruleSHLEN(w, r) })
+			guard(r, "VOLCONS", func() { ruleVOLCONS(w, r) })
 			guard(r, "IFSCPAIRS", func() { ruleIFSCPAIRS(w, r) })
 			guard(r, "SLICECAP", func() { ruleSLICECAP(w, r) })
 			guard(r, "SHARDTAB", func() { ruleSHARDTAB(w, r) })
